@@ -94,13 +94,15 @@ Section Rules.
   Qed.
 
   Lemma stop_no_match ps o k a p e pre post : opts_ok ps o ->
-    (k = TkBraceOpen \/ k = TkMacro \/ k = TkComment \/ (is_mk k = true /\ f_in_math (ps_f ps) = false)) ->
+    (k = TkBraceOpen \/ k = TkMacro \/ k = TkComment \/ k = TkSpecials
+     \/ (is_mk k = true /\ f_in_math (ps_f ps) = false)) ->
     stop_matches (g_stop o) (mk k a p e pre post) = false.
   Proof.
     intros (_ & _ & _ & ST) K.
     destruct (g_stop o) as [|cc|k' cc|nm|? ? ?]; try reflexivity; try contradiction.
-    - cbn. destruct K as [->|[->|[->|[K _]]]]; try reflexivity. destruct k; try discriminate; reflexivity.
-    - destruct ST as [K' M]. cbn. destruct K as [->|[->|[->|[K M']]]].
+    - cbn. destruct K as [->|[->|[->|[->|[K _]]]]]; try reflexivity. destruct k; try discriminate; reflexivity.
+    - destruct ST as [K' M]. cbn. destruct K as [->|[->|[->|[->|[K M']]]]].
+      + destruct k'; try discriminate; reflexivity.
       + destruct k'; try discriminate; reflexivity.
       + destruct k'; try discriminate; reflexivity.
       + destruct k'; try discriminate; reflexivity.
@@ -131,7 +133,7 @@ Section Rules.
   Proof.
     intros OK GD M T G H. pose proof OK as (NL & _ & CH & _). rewrite run_collect. unfold collect_step.
     rewrite next_tok_strict, T, (stop_no_match ps o _ _ _ _ _ _ OK)
-      by (right; right; right; split; [destruct k; reflexivity | exact M]).
+      by (right; right; right; right; split; [destruct k; reflexivity | exact M]).
     assert (TK : tk (mk (m_tok k) (m_open k) (pos + length ws) (pos + length ws + length (m_open k)) ws [])
                  = m_tok k) by reflexivity.
     assert (BO : by_open_has ps (m_open k) = true).
@@ -169,6 +171,26 @@ Section Rules.
     unfold c_dispatch. cbn [mk tk targ tpos tend tpost]. unfold c_push_check. rewrite NL. cbn [nl_stop_met].
     exact H.
   Qed.
+
+  Lemma rule_specials n ps o st pos ws chars pe sp nd p' r :
+    opts_ok ps o -> get_specials_spec cx chars = Some sp ->
+    impl_peek ps s pos = TokOk (mk TkSpecials chars (pos + length ws) pe ws []) ->
+    R n (TCall ps (mk TkSpecials chars (pos + length ws) pe [] []) sp pe) = Ok (ONode (Some nd)) p' ->
+    R n (TCollect ps o (push_node (pre_flush ps st ws pos) (Some nd)) p') = r ->
+    R (S n) (TCollect ps o st pos) = r.
+  Proof.
+    intros OK SP T G H. pose proof OK as (NL & _ & CH & _). rewrite run_collect. unfold collect_step.
+    rewrite next_tok_strict, T, (stop_no_match ps o _ _ _ _ _ _ OK) by (right; right; right; left; reflexivity).
+    cbn [mk tk]. rewrite (c_pre_result_nl ps o st _ _ pos _ ws [] NL). cbn [fst snd].
+    unfold c_dispatch. cbn [mk tk targ tpos tend tpost]. rewrite SP, CH. unfold c_tok0. cbn [mk tk targ tpos tend tpost].
+    rewrite G. cbn [parse_content]. unfold c_push_check. rewrite NL. cbn [nl_stop_met]. exact H.
+  Qed.
+
+  Lemma rule_tcall_specials n ps chars p0 pe sp :
+    sp_args sp = APStd [] ->
+    R (S (S n)) (TCall ps (mk TkSpecials chars p0 pe [] []) sp pe)
+    = Ok (ONode (Some (NSpecials p0 pe (ps_mode ps) chars (Some ([], []))))) pe.
+  Proof. intros A. cbn [run]. rewrite A. reflexivity. Qed.
 
   (** ** the general-nodes parser *)
   Lemma rule_general_stop n ps o pos st t p :
